@@ -16,32 +16,32 @@ CHECKS = {
   note="Trusted: engine semantics (validated by native witness replays), solver, native compiler. Portions are concrete (linear arithmetic).",
   ref="DESIGN §5 C03"),
  "C08": dict(
-  text="Differential bounded model checking: native compiler + symbolic VM against a ~250-line reference semantics (RefSem) evaluated on the same symbolic inputs; per (source,destination,asset) the summed amounts are proved equal on every path, outcome classes (ok/insufficient/invalid/vars refused) must agree, and Compile must accept exactly the programs the static rules of the language accept.",
-  note="Trusted: RefSem (harness/internal/machine/vm/zz_ast.go), engine, solver. The gcache compilation cache is bypassed; zero-amount postings and splitting of adjacent postings are not compared.",
+  text="Differential bounded model checking: native compiler + symbolic VM against a ~250-line reference semantics (RefSem) evaluated on the same symbolic inputs; per (source,destination,asset) the summed amounts are proved equal on every path, outcome classes (ok/insufficient/invalid/vars refused) must agree, and Compile must accept exactly the programs the static rules of the language accept. A second differential (ZZ_C08X) runs 12 hand-read programs over the rest of the grammar (save, metadata statements, arithmetic, typed variables, balance(), meta()); ZZ_C08Cache runs command.Compiler.Compile (interpreted; sha256 = injective token appended in place, gcache = bounded LFU model) with cache sizes 1/2/1024 and two concurrent texts under every schedule within the pre-emption budget, including pre-emptions between nested calls of one statement.",
+  note="Trusted: RefSem (harness/internal/machine/vm/zz_ast.go), engine, solver. Zero-amount postings and splitting of adjacent postings are not compared.",
   ref="DESIGN §5 C08"),
  "C12": dict(
-  text="Bounded symbolic model checking for crashes: every path of every NumGen program and of 35 odd-but-valid programs (save from non-sources, repeated balance() lookups, negative arithmetic, missing/extra/ill-formed variables, bad metadata) with symbolic amounts and balances; any Go panic or exhausted instruction budget on a feasible path is a violation with solver-produced inputs, replayed natively; the compiled Program is executed twice and must behave identically.",
+  text="Bounded symbolic model checking for crashes: every path of every NumGen program and of 35 odd-but-valid programs (save from non-sources, repeated balance() lookups, negative arithmetic, missing/extra/ill-formed variables, bad metadata) with symbolic amounts and balances; any Go panic or exhausted instruction budget on a feasible path is a violation with solver-produced inputs, replayed natively; the compiled Program is executed twice and must behave identically. ZZ_C12Alloc: one AllocateResource step from resource tables of boundary sizes 0..65537 (value of the new constant symbolic): refused with the table unchanged, or the 16-bit address denotes the entry just added.",
   note="Arbitrary byte strings into the ANTLR lexer/parser are outside the claim (not encodable). Trusted: engine, solver, native compiler.",
   ref="DESIGN §5 C12"),
  "C09": dict(
-  text="Bounded symbolic model checking through the real Commander: 552 posting patterns (all 1- and 2-posting combinations over {world,a,b,c}x{USD/2,EUR}, 8 three-posting patterns) with symbolic amounts and balances run Postings.Validate, TxToScriptData, the native compiler, the symbolic VM, locker, batcher and in-memory store; the committed transaction and the persisted log are compared posting by posting with the request, rejection must leave nothing behind, and acceptance must coincide with in-order coverage.",
-  note="The HTTP handlers are outside the claim (JSON text cannot carry a symbolic amount). Trusted: engine, solver, InMemoryStore as the durable store.",
+  text="Bounded symbolic model checking through the real Commander: 552 posting patterns (all 1- and 2-posting combinations over {world,a,b,c}x{USD/2,EUR}, 8 three-posting patterns) with symbolic amounts and balances run Postings.Validate, TxToScriptData, the native compiler, the symbolic VM, locker, batcher and in-memory store; the committed transaction and the persisted log are compared posting by posting with the request, rejection must leave nothing behind, and acceptance must coincide with in-order coverage. ZZ_C09Bulk: bulks of 2..3 posting-mode elements go through v2.ProcessBulk (JSON model, amounts symbolic inside the text, presence of metadata/reference/timestamp arbitrary per element); each element must reach the engine with exactly its own script, variables, metadata, reference, timestamp and key.",
+  note="The single-transaction HTTP handlers are outside the claim. Trusted: engine, solver, InMemoryStore as the durable store.",
   ref="DESIGN §5 C09"),
  "C10": dict(
   text="Bounded symbolic model checking of RevertTransaction through the real Commander: 9 original posting patterns x forced/unforced x with/without an intermediate spend, symbolic non-negative amounts and balances; revert postings = reversed original with swapped ends, reverted flag, balances restored when nothing moved, unforced revert refused with insufficient funds and never overdrawing, second revert refused.",
   note="Racing reverts (schedules) are not part of this check. Trusted: engine, solver, InMemoryStore.",
   ref="DESIGN §5 C10"),
  "C13": dict(
-  text="Bounded symbolic model checking of the log round trip: every log kind the commander can write (7 write kinds incl. delete-metadata on accounts and transactions) is produced by the real write path with symbolic ids and amounts, encoded by the rope-level JSON model (interpreting the repository's MarshalJSON/UnmarshalJSON methods), decoded by ChainedLog.UnmarshalJSON/HydrateLog, re-encoded (text equality decided on ropes) and its hash recomputed from the round-tripped entry and its predecessor.",
+  text="Bounded symbolic model checking of the log round trip: every log kind the commander can write (7 write kinds incl. delete-metadata on accounts and transactions; metadata of one entry, nil, empty, two entries) is produced by the real write path with symbolic ids and amounts, encoded by the rope-level JSON model (interpreting the repository's MarshalJSON/UnmarshalJSON methods), decoded by ChainedLog.UnmarshalJSON/HydrateLog, re-encoded (text equality decided on ropes) and its hash recomputed from the round-tripped entry and its predecessor.",
   note="encoding/json is a model (validated on witness replays), sha256 is an injective token; arbitrary Unicode metadata and RFC3339Nano formatting of arbitrary instants are outside the claim; transaction ids < 2^62.",
   ref="DESIGN §5 C13"),
  "C14": dict(
-  text="Two-world differential, bounded symbolic model checking: for each of 7 write kinds, [preview w; real w; real r] against [real w; real r] from the same symbolic pre-state (last log id L, last transaction id N, balance) — preview persists and publishes nothing and consumes no id, answers what the real write answers, and every later response, id, log entry and event is identical in both worlds.",
-  note="Sequential requests; restarts after a preview are covered by the symbolic pre-state (Init only reads the tail). Trusted: engine, solver, InMemoryStore.",
+  text="Two-world differential, bounded symbolic model checking: for each of 7 write kinds, [preview w; real w; real r] against [real w; real r] from the same symbolic pre-state (last log id L, last transaction id N, balance) — preview persists and publishes nothing and consumes no id, answers what the real write answers, and every later response, id, log entry and event is identical in both worlds. ZZ_C14Flag (api/v1 and api/v2): getCommandParameters, with net/url.ParseQuery interpreted, puts a request in dry-run mode exactly when the preview=/dryRun= value — an arbitrary alphanumeric string of 1..4 bytes — is one of the preview spellings (true or yes in any letter case, 1).",
+  note="The preview spellings are those both API versions accept at the pinned commit (documented boolean plus legacy yes). Sequential requests; restarts after a preview are covered by the symbolic pre-state (Init only reads the tail). Trusted: engine, solver, InMemoryStore.",
   ref="DESIGN §5 C14"),
  "C16": dict(
-  text="Bounded symbolic model checking of event emission: per write kind x {real, preview, repeated through an idempotency key} every bus.Monitor call is matched against a persisted log entry (transaction ids symbolic; for reverts which transaction is reverted and which reverts), previews and refused writes publish nothing, every persisted change is published at least once.",
-  note="The monitor is a recording bus.Monitor; publish.NewMessage/watermill are not executed. Concurrent emission is not part of this check.",
+  text="Bounded symbolic model checking of event emission: per write kind x {real, preview, repeated through an idempotency key} every event — decoded from the JSON payload the real bus.ledgerMonitor hands to a recording publisher — is matched against a persisted log entry (transaction ids symbolic; for reverts which transaction is reverted and which reverts), previews and refused writes publish nothing, every persisted change is published at least once.",
+  note="publish.NewMessage is modelled (payload = JSON model of the real EventMessage; uuid and otel context constant); watermill transport is not executed. Concurrent emission is not part of this check.",
   ref="DESIGN §5 C16"),
  "C18": dict(
   text="Bounded symbolic model checking of v2.ProcessBulk against a recording backend: bulks of 1..3 elements, the action of each element (four known, one unknown) and the error class enumerated, success/failure of each element and continueOnFailure as solver variables; executed calls (order, idempotency keys), one result per processed element at its position with the matching type, early stop and the failure signal are compared with the in-order reference.",
@@ -53,7 +53,7 @@ CHECKS = {
   ref="DESIGN §5 C19"),
  "C20": dict(
   text="Bounded symbolic model checking of the filter-to-SQL builders: for 16 (listing, key, operator) cases the client text — as value, and as the bracketed part of metadata[...] / balance[...] keys — is an arbitrary byte string of length 0..3 (thorough 4); the real accountQueryContext, transactionQueryContext, the matcher closures of GetAggregatedBalances and logsQueryBuilder and filterAccountAddress* build the clause, which must tokenise (SQL token kinds, plus JSON/jsonpath token kinds inside literals) exactly like the clause for a harmless string of the same shape, unless the request is rejected.",
-  note="bun's escaping of bound arguments is a library contract and not encoded; backslash is assumed literal inside SQL quotes (standard_conforming_strings). The scanner in the harness is the oracle.",
+  note="bun's escaping of bound arguments is a library contract and not encoded (but the number of ? bytes of the clause, which bun substitutes quoted or not, must not depend on client text); backslash is assumed literal inside SQL quotes (standard_conforming_strings). The scanner in the harness is the oracle.",
   ref="DESIGN §5 C20"),
  "C02": dict(
   text="Bounded symbolic model checking with schedules as decisions: the real Commander, DefaultLocker, Referencer, Batcher and job.Runner run on engine threads with a Yield before every statement (overlay instrumentation); two concurrent sends from one account — the source named literally, by an account variable, or through meta() — with symbolic opening balance and amounts; after quiescence the persisted log is replayed in order and every posting must be covered at its position (z3 finds 'both accepted and a1+a2 > balance' otherwise), and every Lock call must carry the resolved source in its write set.",
@@ -80,7 +80,7 @@ CHECKS = {
   note="The inputs are schedules and cancellation moments (decisions); the solver's part is feasibility. Counterexample schedules are replayed natively by the schedule controller.",
   ref="DESIGN §5 C15"),
  "C17": dict(
-  text="Bounded symbolic model checking of bunpaginate over an abstract ordered table: for collections of 0..4 rows with arbitrary increasing ids, every page size 1..n+1 and both orders, UsingColumn is followed through `next` until hasMore is false (each row exactly once, in order) and back through `previous` (the page before), every cursor being decoded again with UnmarshalCursor; UsingOffset's one-step law (page contents count, hasMore, next/previous offsets) is decided for arbitrary 64-bit offset and page size <= MaxPageSize; cursors of the transactions/accounts/logs listings with filters are encoded, decoded and must build the same WHERE clause.",
+  text="Bounded symbolic model checking of bunpaginate over an abstract ordered table: for collections of 0..4 rows with arbitrary increasing ids, every page size 1..n+1 and both orders, UsingColumn is followed through `next` until hasMore is false (each row exactly once, in order) and back through `previous` (the page before), every cursor being decoded again with UnmarshalCursor; UsingOffset's one-step law (page contents count, hasMore, next/previous offsets) is decided for arbitrary offset < 2^31 (bun keeps OFFSET as int32) and page size <= MaxPageSize; every filter tree of depth <= 2 over {$match,$lt,$and,$or,$not} put into a cursor is decoded to a builder rendering the same clause; cursors of the transactions/accounts/logs listings with filters are encoded, decoded and must build the same WHERE clause.",
   note="*bun.SelectQuery is modelled as an ordered relation (Where/OrderExpr/Offset/Limit/Scan); bun's SQL generation and PostgreSQL are outside the claim; natively the replays run against a fake database/sql driver that parses the statements bun emits. reflect is answered from go/types; JSON/base64 are models.",
   ref="DESIGN §5 C17"),
 }
